@@ -46,8 +46,9 @@ def r1(c):
     mp = repo.func(PATCHING, "make_patch")
     gm2 = GuardMap(mp)
     rets = [n for n in walk_no_nested(mp) if isinstance(n, ast.Return)]
-    ts = [x for x in calls_in(mp) if norm(x) == "tree.sort()"]
-    ok = len(rets) == 1 and len(ts) == 1 and gm2.formula(ts[0]) == G.T and ts[0].lineno < rets[0].lineno and norm(rets[0].value) == "tree"
+    tv = norm(rets[0].value) if rets and rets[0].value is not None else "tree"
+    ts = [x for x in calls_in(mp) if norm(x) == f"{tv}.sort()"]
+    ok = len(rets) == 1 and len(ts) == 1 and gm2.formula(ts[0]) == G.T and isinstance(rets[0].value, ast.Name)
     c.check("C08.R1", ok, repo.loc(m, mp), "make_patch/sorted-before-return", "the patch tree is not (unconditionally) sorted before it is returned", key_text="mp-sort")
     loop = [st for st in mp.body if isinstance(st, ast.For) and norm(st.iter) == "patch"]
     ok = len(loop) == 1 and not [n for n in walk_no_nested(loop[0]) if isinstance(n, (ast.Continue, ast.Break, ast.Return))]
@@ -115,10 +116,20 @@ def r2(c):
     m = repo.module(PATCHING)
     mp = repo.func(PATCHING, "make_patch")
     pv = Provenance(mp)
-    sk = [n for n in walk_no_nested(mp) if isinstance(n, ast.Assign) and norm(n.targets[0]) == "sort_key"]
-    if len(sk) != 1:
-        raise AnchorError("make_patch: sort_key assignment not found")
-    _key_checks(c, m, "make_patch.sort_key", sk[0].value, ["item"], "item['order']", "item['order_direct']", repo.loc(m, sk[0]))
+    # the sort key: the value handed to tree.add / tree.add_block as sort_key (directly or through a local)
+    adds = [x for x in calls_in(mp) if isinstance(x.func, ast.Attribute) and x.func.attr in ("add", "add_block") and not (x.args and isinstance(x.args[0], ast.Constant))]
+    keys = []
+    for x in adds:
+        e = kwarg(x, "sort_key", 2 if x.func.attr == "add" else 3)
+        if e is not None:
+            keys.append(pv.resolve_alias(e))
+    if not keys or len({norm(k) for k in keys}) != 1:
+        raise AnchorError("make_patch: the sort key handed to tree.add/add_block not found (or differs between the two)")
+    itemvar = "item"
+    loops_ = GuardMap(mp).in_loop(adds[0])
+    if loops_ and isinstance(loops_[-1].target, ast.Name):
+        itemvar = loops_[-1].target.id
+    _key_checks(c, m, "make_patch.sort_key", keys[0], [itemvar], f"{itemvar}['order']", f"{itemvar}['order_direct']", repo.loc(m, adds[0]))
     # the dict fields come from get_order(row, direct, ...) results 0 and 1
     go = [x for x in calls_in(mp) if isinstance(x.func, ast.Attribute) and x.func.attr == "get_order"]
     ok = False
@@ -133,10 +144,21 @@ def r2(c):
     ok = bool(go) and len(go[0].args) >= 2 and norm(go[0].args[0]) == "row" and norm(go[0].args[1]) == "direct"
     c.check("C08.R2", ok, repo.loc(m, go[0] if go else mp), "make_patch/get_order-args", "get_order is not asked about this row with this command's direct flag", key_text="go-args")
     oc = repo.func(PATCHING, "Orderer.order_config")
-    lam = [n for n in ast.walk(oc) if isinstance(n, ast.Lambda)]
-    if not lam:
-        raise AnchorError("order_config: key lambda not found")
-    _key_checks(c, m, "order_config.key", lam[0].body, [lam[0].args.args[0].arg], f"{lam[0].args.args[0].arg}['order']", f"{lam[0].args.args[0].arg}['direct']", repo.loc(m, lam[0]))
+    srt = [x for x in calls_in(oc) if call_name(x) == "sorted"]
+    keyf = kwarg(srt[0], "key") if srt else None
+    body = arg = None
+    if isinstance(keyf, ast.Lambda):
+        body, arg = keyf.body, keyf.args.args[0].arg
+    elif isinstance(keyf, (ast.Name, ast.Attribute)):
+        r = repo.resolve(m, norm(keyf)) if isinstance(keyf, ast.Name) else None
+        if r and isinstance(r[2], ast.FunctionDef):
+            kf = repo.canon(r[0], r[2])
+            rets = [n for n in walk_no_nested(kf) if isinstance(n, ast.Return) and n.value is not None]
+            if len(rets) == 1 and kf.args.args:
+                body, arg = rets[0].value, kf.args.args[0].arg
+    if body is None:
+        raise AnchorError("order_config: key function of sorted(...) not found")
+    _key_checks(c, m, "order_config.key", body, [arg], f"{arg}['order']", f"{arg}['direct']", repo.loc(m, srt[0]))
     c.count("functions", 2)
 
 
